@@ -25,7 +25,8 @@ PAIR_KINDS = {"monitor": "the mangled run is rejected by the monitor",
               "effects": "the tree-changing engine calls of the mangled run differ from those of the reference run",
               "retransfer": "the mangled run transfers the same version twice",
               "budget": "the mangled run issues more tree-changing calls of a kind than there are user operations of that kind",
-              "stuck": "the mangled run does not become quiet"}
+              "stuck": "the mangled run does not become quiet",
+              "walk": "a full walk of a quiet, synchronised tree made the engine busy again"}
 
 
 # ------------------------------------------------------------------ engine pairs (worker side)
@@ -79,6 +80,7 @@ def _account(st, case, r):
             st["permuted_batches"] += ms["permuted"]
             st["events_calls"] += ms["calls"]
     st["walks"] += r["mangler"].get("walks", 0)
+    st["walks_of_quiet_engine"] = st.get("walks_of_quiet_engine", 0) + r["mangler"].get("quiet_walks", 0)
     if nu >= 1 and r["n_eff_man"] >= 1:
         st["distinct"].add(fw.case_id(EC.jsonable_case(dict(f=case["flavour"], s=case["schedule"], b=case.get("base"), m=m)))[:16])
     if len(st["samples"]) < 1:
@@ -192,7 +194,7 @@ def run(ctx):
         mpc = mp.get_context("fork")
         # ================= tie (i): event sequences (own pool: patches cloudsync.sync.state.time with the C11 clock)
         t0 = time.time()
-        nseq = 3200 if ctx.quick else 64000
+        nseq = 3200 if ctx.quick else 48000
         with mpc.Pool(nw) as pool:
             # ---- corpus first
             parts = [seq_files[k::nw] for k in range(nw) if seq_files[k::nw]]
@@ -244,7 +246,7 @@ def run(ctx):
             distinct += len(seen)
         # ================= tie (ii): engine pairs (own pool: harness.engine.install)
         t0 = time.time()
-        npairs = 1600 if ctx.quick else 50000
+        npairs = 1600 if ctx.quick else 40000
         with mpc.Pool(nw, initializer=_pair_init) as pool:
             parts = [pair_files[k::nw] for k in range(nw) if pair_files[k::nw]]
             cres = [x for part in pool.map(_pair_corpus, parts) for x in part] if parts else []
